@@ -339,6 +339,13 @@ func runC13(c *Ctx) {
 		if rs := p.tupleResultAt(rateV, ret); rs != nil {
 			rateS = rs // the Rate handed back by a helper, on the branch its boolean companion selects
 		}
+		// `return recalculated(interval, quantity)`: a pure helper that builds the result tuple
+		errIsNil := isNilConst(errV)
+		if xs := p.SymX(rateV); xs.String() != p.Sym(rateV).String() {
+			if es := p.SymX(errV); es.Op == "const" && es.Name == "nil" {
+				rateS, errIsNil = xs, true
+			}
+		}
 		isZeroRate := false
 		if cst, ok := rateV.(*ssa.Const); ok && cst.Value == nil {
 			isZeroRate = true
@@ -346,7 +353,7 @@ func runC13(c *Ctx) {
 		if rateS.Op == "struct" && len(rateS.Keys) == 0 {
 			isZeroRate = true
 		}
-		if !isNilConst(errV) {
+		if !errIsNil {
 			// V1
 			r.Check(isZeroRate, "V1", key, site, "error with the zero Rate", "a non-nil error is returned together with the non-zero Rate "+rateS.String())
 			// V5 region of the error value
@@ -675,6 +682,17 @@ func isQuantityFloor(p *Prog, qS *Sym, recv, minPar *ssa.Parameter, positiveAt f
 			// must be converted with SetUint64 (through int64 it would go negative above 2^63-1)
 			var arg *Sym
 			unsignedConv := false
+			// a private conversion helper (durationToBig(d) = new(big.Int).SetInt64(int64(d))) stands
+			// for what it returns, with its parameter replaced by the argument given here
+			if x.Op == "call" {
+				if hc, isCall := x.V.(*ssa.Call); isCall {
+					if hf := p.Callee(hc); hf != nil && p.IsProduct(hf) {
+						if rs := p.resultSyms(hf, 0); len(rs) == 1 {
+							x = deepStrip(p.substParams(hc, hf, rs[0]))
+						}
+					}
+				}
+			}
 			switch {
 			case x.Op == "call" && strings.HasSuffix(x.Name, "big.Int).SetUint64") && len(x.Args) == 2:
 				arg, unsignedConv = x.Args[1], true
